@@ -71,6 +71,7 @@ func hintOfTag(tag string, t reflect.Type) (h leafHint) {
 }
 
 var timeType = reflect.TypeOf(time.Time{})
+var zeroLoc = time.FixedZone("verif", 3600)
 
 // seconds since the epoch: boundaries of the representable ranges of the three timestamp units,
 // the epoch itself (a value, not the zero time.Time), dates before 1970 (negative days, floor vs
@@ -156,7 +157,13 @@ func Fill(r *rand.Rand, v reflect.Value, p *Profile, path string, isOptional boo
 			// the zero time.Time is the null of an optional non-pointer field; every other
 			// instant (the epoch included) is a value
 			if isOptional && p.null(r, path) {
-				v.Set(reflect.Zero(t))
+				// the zero instant, sometimes carrying a location (time.Time{}.In(loc) is
+				// IsZero() but not the zero struct): null on every path
+				if r.Intn(3) == 0 {
+					v.Set(reflect.ValueOf(time.Time{}.In(zeroLoc)))
+				} else {
+					v.Set(reflect.Zero(t))
+				}
 				return
 			}
 			v.Set(reflect.ValueOf(randTime(r, p)))
